@@ -8,3 +8,6 @@ import (
 )
 
 func vectorTables(r *mon.Run, bshl ref.Pt) {}
+
+func vecSnapshot() interface{}     { return nil }
+func vecDiff(s interface{}) string { return "" }
